@@ -798,7 +798,7 @@ NextPin:
 		}
 	}
 
-	err = sdb.updateHash(tx, nodeID, hashUpdate)
+	err = sdb.updateHashEdge(tx, edge, parentID, hashUpdate)
 	if err != nil {
 		rollback()
 		return fmt.Errorf("Error updating upstream hash: %v", err)
@@ -812,6 +812,24 @@ NextPin:
 	return nil
 }
 
+// updateHashEdge applies a hash update that belongs to a single edge (its edge
+// points, or the initial content of a new edge) to that edge and to all edges
+// upstream of its parent. Other edges pointing at the same node (mirrors) hold
+// their own edge points and must not be touched.
+func (sdb *DbSqlite) updateHashEdge(tx *sql.Tx, edge data.Edge, parentID string, hashUpdate uint32) error {
+	cache := make(map[string]uint32)
+	cache[edge.ID] = edge.Hash ^ hashUpdate
+
+	if parentID != "none" {
+		err := sdb.updateHashHelper(tx, parentID, hashUpdate, cache)
+		if err != nil {
+			return err
+		}
+	}
+
+	return sdb.writeHashCache(tx, cache)
+}
+
 func (sdb *DbSqlite) updateHash(tx *sql.Tx, id string, hashUpdate uint32) error {
 	// key in edgeCache is up-down
 	cache := make(map[string]uint32)
@@ -820,6 +838,10 @@ func (sdb *DbSqlite) updateHash(tx *sql.Tx, id string, hashUpdate uint32) error 
 		return err
 	}
 
+	return sdb.writeHashCache(tx, cache)
+}
+
+func (sdb *DbSqlite) writeHashCache(tx *sql.Tx, cache map[string]uint32) error {
 	// write update hash values back to edges
 	stmt, err := tx.Prepare(`UPDATE edges SET hash = ? WHERE id = ?`)
 
